@@ -3,7 +3,8 @@
    The model Mod/Modules.v is tied to lark/load_grammar.py by harness/props/C17.py on every run. *)
 From Coq Require Import List String Ascii Bool ZArith Arith.
 From LV Require Import Cfg.Grammar Mod.Rename Mod.Rename_proofs Mod.Modules Mod.Modules_proofs
-  Mod.Inline_proofs Mod.Compile Mod.Semantics_proofs Gen.Mangle Mod.MangleSrc_proofs.
+  Mod.Inline_proofs Mod.Compile Mod.Semantics_proofs Gen.Mangle Mod.MangleSrc_proofs
+  Mod.Options_proofs Mod.Unpack Mod.Unpack_proofs.
 Import ListNotations.
 Local Open Scope string_scope.
 
@@ -154,6 +155,38 @@ Theorem C17_import_plain_module f fs g ls b p al ds b' :
     NoDup (map (fun d => mangle ls' (d_name d)) ds).
 Proof. exact (import_is_inlining f fs g ls b p al ds b'). Qed.
 Print Assumptions C17_import_plain_module.
+
+(* ---- global options ------------------------------------------------------------------------------ *)
+(* keep_all_tokens (GrammarBuilder.global_keep_all_tokens; the `gkeep` argument of the model's load) is
+   the one option that load_grammar hands to the builder.  do_import hands it on to the builder of the
+   imported module, so every definition an import adds - imported by name or as a dependency, at any
+   nesting depth - has keep_all_tokens set, exactly like a rule written in the top-level grammar
+   (second theorem): the option means the same for imported and for hand-inlined definitions *)
+Theorem C17_keep_all_tokens_reaches_imports f fs ls b imp b' :
+  do_import (fun next ls0 ms0 => load f fs true ls0 ms0 (fresh_builder next)) fs ls b imp = Ok b' ->
+  exists kept, b_defs b' = (b_defs b ++ kept)%list /\ Forall keeps kept.
+Proof. exact (keep_all_reaches_imports f fs ls b imp b'). Qed.
+Print Assumptions C17_keep_all_tokens_reaches_imports.
+
+Theorem C17_keep_all_tokens_local o d l l' :
+  define true o d l = Ok l' -> find_def (d_name d) l' = Some (norm_def true d) /\ keeps (norm_def true d).
+Proof. exact (keep_all_local o d l l'). Qed.
+Print Assumptions C17_keep_all_tokens_local.
+
+(* ---- _unpack_import: which module and which alias table an %import statement denotes -------------------- *)
+Theorem C17_unpack_import_names children names :
+  exists al, unpack_import children (ANames names) = Some (children, al) /\
+    (forall k v, assoc k al = Some v -> k = v) /\
+    (forall n, In n names -> assoc n al = Some n).
+Proof. exact (unpack_names children names). Qed.
+Print Assumptions C17_unpack_import_names.
+
+Theorem C17_unpack_import_single path name arg :
+  path <> [] -> (forall l, arg <> ANames l) ->
+  unpack_import (path ++ [name]) arg = Some (path, [(name, match arg with AAlias a => a | _ => name end)]) /\
+  unpack_import [name] arg = None.
+Proof. intros Hp Ha. split. exact (unpack_single path name arg Hp Ha). exact (unpack_nothing name arg Ha). Qed.
+Print Assumptions C17_unpack_import_single.
 
 (* ---- the semantic reading (BNF-like fragment: expansions of expansions of symbols) ------------------ *)
 (* definitions renamed = grammar renamed (num: any numbering of names; the renamed terminal has the
